@@ -71,17 +71,39 @@ Exit(g) == CASE g.ctx = "root" -> Bodies[g.body].exit
              [] g.ctx = "do" -> IF g.body = "retthunk" THEN Bodies[g.body].exit ELSE 0
              [] g.ctx = "vlet" -> IF g.body = "vapp" THEN Bodies[g.body].exit ELSE 0
 
+(* ---- def-sealing: "relying on the representation of a `def`-sealed type outside its definition" ------------- *)
+(* A and B are declared with the same right-hand side, each either sealed (`def`) or transparent (`let`).        *)
+(*   kind  "data": data | +K : Int64 end        "int": Int64                                                     *)
+(*   use   "construct": a value is built at A (constructor / literal) and eliminated at A                        *)
+(*         "cross":     the value built at A is used at B                                                        *)
+(* RULE: two distinct names denote the same type iff BOTH are transparent; a literal inhabits A iff A is          *)
+(* transparent; a constructor of the declared data type always introduces into it (sealed or not).               *)
+Modes == {"def", "let"}
+SealPrograms == {[fam |-> "seal", kind |-> k, ma |-> a, mb |-> b, use |-> u] : k \in {"data", "int"}, a \in Modes, b \in Modes, u \in {"construct", "cross"}}
+SealVerdict(g) == LET built == g.kind = "data" \/ g.ma = "let"
+                      same == g.ma = "let" /\ g.mb = "let" IN
+                  IF ~built THEN "mismatch" ELSE IF g.use = "cross" /\ ~same THEN "mismatch" ELSE "accept"
+\* sealing never makes more programs typable: replacing a `let` by a `def` can only turn accept into mismatch
+SealMonotone == \A g, h \in SealPrograms :
+                  (g.kind = h.kind /\ g.use = h.use /\ (g.ma = "def" => h.ma = "def") /\ (g.mb = "def" => h.mb = "def") /\ SealVerdict(h) = "accept")
+                     => SealVerdict(g) = "accept"
+
 VARIABLES stage, prog
 Init == stage = "pick" /\ prog \in {[pkg |-> k, path |-> <<>>, opener |-> "let", body |-> "exitconst", ctx |-> "root"] : k \in Pkgs}
-Next == stage = "pick" /\ stage' = "done" /\ prog' \in {g \in Programs : g.pkg = prog.pkg /\ Valid(g)}
+Next == stage = "pick" /\ stage' = "done" /\
+        \/ prog' \in {g \in Programs : g.pkg = prog.pkg /\ Valid(g)}
+        \/ (prog.pkg = "box" /\ prog' \in SealPrograms)
 Spec == Init /\ [][Next]_<<stage, prog>>
 
 \* the rule is a function of the body alone: neither the nesting of the pattern nor the opening construct matters
 PathIndependent == \A g, h \in {x \in Programs : Valid(x)} : (g.body = h.body) => Verdict(g) = Verdict(h)
 \* an accepted opener has a closed type; every escaping body is rejected
 AcceptedIsClosed == \A g \in {x \in Programs : Valid(x)} : Verdict(g) = "accept" => ~Mentions(Bodies[g.body].ty)
-Inv == stage = "pick" => (PathIndependent /\ AcceptedIsClosed)
+Inv == stage = "pick" => (PathIndependent /\ AcceptedIsClosed /\ SealMonotone)
 
-Report == stage = "done" => PrintT(<<"REPLAY", ToJson([pkg |-> prog.pkg, path |-> prog.path, opener |-> prog.opener, body |-> prog.body,
-                                                      ctx |-> prog.ctx, verdict |-> Verdict(prog), exit |-> Exit(prog)])>>)
+Report == stage = "done" =>
+  IF "fam" \in DOMAIN prog
+  THEN PrintT(<<"REPLAY", ToJson(prog @@ [verdict |-> SealVerdict(prog), exit |-> 3])>>)
+  ELSE PrintT(<<"REPLAY", ToJson([pkg |-> prog.pkg, path |-> prog.path, opener |-> prog.opener, body |-> prog.body,
+                                  ctx |-> prog.ctx, verdict |-> Verdict(prog), exit |-> Exit(prog)])>>)
 ================================================================================
